@@ -103,7 +103,7 @@ def rule_r3(chk, facts):
     bs = None
     for b, blk in f.blocks.items():
         c = blk.get('cond')
-        if c is not None and any(m[0] == 'b' and m[1] == '==' and const_val(m[3]) == 92 for m in walk(c)):
+        if c is not None and any(m[0] == 'b' and m[1] in ('==', '!=') and const_val(m[3]) == 92 for m in walk(c)):
             bs = b
     if bs is None:
         raise AnalysisBroken('ReadLnCont: continuation test not found')
@@ -116,7 +116,7 @@ def rule_r3(chk, facts):
         raise AnalysisBroken('ReadLnCont: outer loop not found')
 
     def cr_test(ex):
-        return any(m[0] == 'b' and m[1] == '==' and const_val(m[3]) == 13 for m in walk_own(ex))
+        return any(m[0] == 'b' and m[1] in ('==', '!=') and const_val(m[3]) == 13 for m in walk_own(ex))
 
     def no_terminator(l):
         return edge_has_atom(l, lambda a: (a[0] == 'z' and a[1][0] == 'l' and a[1][1] in ('Terminated', 'ptr')) or
